@@ -510,3 +510,60 @@ def c18_body(cfg):
                     d = [k for k in qa if qa[k] != qb.get(k)]
                     return {"why": "read-only query differs", "pv": pv, "op": op, "query": d[:3], "mixin": [qa[k] for k in d[:3]], "light": [qb[k] for k in d[:3]]}
     return True
+
+
+def ctor_body(cfg):
+    """C02, last clause: Node/AnyNode/SymlinkNode(parent=b, children=xs) on an existing forest behaves like
+    creating the node and then assigning parent and (if non-empty) children, including refusals."""
+    kind = cfg.get("cls", "node")
+    n, pv = pick_forest(cfg)
+    parent, children = model_from_pv(pv)
+    b = nondet_int(-1, n, "b")
+    b = None if b < 0 else (NON if b == n else b)
+    ln = nondet_int(0, cfg.get("L", 2), "len")
+    xs = []
+    for j in range(ln):
+        x = nondet_int(0, n, "x%d" % j)
+        xs.append(NON if x == n else x)
+    xs = tuple(xs)
+    with concrete_region():
+        base = {"node": HNode, "anynode": HAny, "symlink": HSym}[kind]
+        nodes = build_forest(base, pv, False)
+        non = NotANode()
+        rb = None if b is None else (non if b == NON else nodes[b])
+        rxs = [non if x == NON else nodes[x] for x in xs]
+        exc = None
+        new = None
+        try:
+            if kind == "node":
+                new = Node("new", parent=rb, children=rxs)
+            elif kind == "anynode":
+                new = AnyNode(parent=rb, children=rxs)
+            else:
+                new = SymlinkNode(nodes[0], parent=rb, children=rxs)
+        except Exception as e:
+            exc = e
+        # model: fresh root n, then parent=, then children= (only if non-empty)
+        mp = list(parent) + [None]
+        mc = [list(c) for c in children] + [[]]
+        out, mp, mc = F.apply_functional(mp, mc, ("parent", n, b), "mixin")
+        if out == "ok" and xs:
+            out2, mp2, mc2 = F.apply_functional(mp, mc, ("children", n, xs), "mixin")
+            if out2 == "ok":
+                mp, mc = mp2, mc2
+            elif out2 == "LoopError":
+                return True  # refused after link changes: post-state is C03's subject (known findings), class checked below would need the object
+            out = out2
+        got = classify(exc)
+        if out == "ok" and (b is not None or xs):
+            nontrivial()
+        if got != out:
+            return {"why": "constructor outcome differs from the assignments", "pv": pv, "b": b, "xs": xs, "got": got, "exp": out, "exc": repr(exc)}
+        if out == "ok":
+            allnodes = nodes + [new]
+            if real_map(allnodes) != (mp, mc):
+                return {"why": "constructor effect differs from the assignments", "pv": pv, "b": b, "xs": xs, "got": list(real_map(allnodes)), "exp": [mp, mc]}
+        elif out == "TreeError" and b == NON:
+            if real_map(nodes) != (parent, children):
+                return {"why": "refused constructor changed the forest", "pv": pv}
+    return True
